@@ -487,6 +487,50 @@ theorem level_terminates_of_no_tie (div : Nat → Rat) (hd : (∀ k, 0 < div k) 
   refine ⟨c, hc, ha_tier_has_votes div hd votes hv hn hpos n prop hp c p.2 ?_⟩
   rw [← hc]; exact hpm
 
+/-- **Final totals = proportional distribution, as observed through the two-stage wrapper** (NZ-style
+    `MultistageDistributor([direct-seat stage, AdjustedSeatCount(LevelOverhang, evaluator)])`): under the hypotheses of
+    `level_final_is_proportional` the accumulated result of the wrapper IS the proportional distribution of the enlarged
+    house, party by party. -/
+theorem multistage_final_is_proportional (div : Nat → Rat) (hd : (∀ k, 0 < div k) ∧ StrictMono div) (votes v1 : Votes)
+    (hv : ∀ p ∈ votes, 0 < p.2) (hn : (keys votes).Nodup) (fuel n : Nat) (direct : Seats)
+    (hpn : (direct.map (·.1)).Nodup) (adj : Nat) (prop full elected : Dist)
+    (hc : levelOverhang (haEval div) fuel votes n direct [] = .ok adj)
+    (hms : multistage [(mockStage direct, v1),
+      (adjustedSeatCount (levelOverhang (haEval div) fuel) (haEval div), votes)] n [] [] = .ok elected)
+    (hp : haEval div votes n [] [] = .ok prop)
+    (htier : ∀ p ∈ direct, 0 < p.2 → distHas prop (.cand p.1) = true)
+    (hfull : haEval div votes (n + adj) [] [] = .ok full)
+    (hnotie : ∀ p ∈ full, ∃ c, p.1 = .cand c) :
+    ∀ c, distGet elected (.cand c) = distGet full (.cand c) := by
+  obtain ⟨_, res0, _, hres0, hrest⟩ := multistage_cons_ok _ _ _ _ _ _ _ hms
+  simp only [mockStage, Except.ok.injEq] at hres0
+  subst hres0
+  have hknd : ((seatsToDist direct).map (·.1)).Nodup := by
+    have : (seatsToDist direct).map (·.1) = (direct.map (·.1)).map Key.cand := by
+      unfold seatsToDist; rw [List.map_map, List.map_map]; rfl
+    rw [this]
+    exact hpn.map (fun a b hab => by cases hab; rfl)
+  have he1 : addDist [] (seatsToDist direct) = seatsToDist direct := by
+    rw [addDist_append_of_disjoint [] _ hknd (fun k _ => by simp)]
+    rfl
+  rw [he1] at hrest
+  obtain ⟨prev, res, hprev, hres, hend⟩ := multistage_cons_ok _ _ _ _ _ _ _ hrest
+  rw [distToSeats_seatsToDist] at hprev
+  have hpe : prev = direct := (Option.some.inj hprev).symm
+  subst hpe
+  simp only [multistage, Except.ok.injEq] at hend
+  obtain ⟨hfin, _⟩ := level_final_is_proportional div hd votes hv hn fuel n prev hpn adj res prop full hc hres hp htier
+    hfull hnotie
+  have hresnd : (res.map (·.1)).Nodup := by
+    unfold adjustedSeatCount at hres
+    rw [hc] at hres
+    simp only [bind, Except.bind] at hres
+    exact haEval_nodup div votes (n + adj) prev [] res hres
+  intro c
+  rw [← hend, distGet_addDist_nodup _ _ hresnd, distGet_seatsToDist]
+  exact hfin c
+
+
 /-! ### the literal "smallest enlargement" reading, and where the code departs from it -/
 
 /-- **Smallest enlargement, literally.**  For an evaluator that fills the house and returns distinct keys: whenever the
